@@ -362,6 +362,7 @@ class Program:
         self.dir = facts_dir
         self.crates = {}
         self.bodies = {}
+        self.multi = {}  # path -> all bodies with that path (derive-generated items can share a path)
         self.adts = {}
         self.counts = {"bodies": 0, "blocks": 0, "calls": 0}
         missing = []
@@ -380,7 +381,9 @@ class Program:
                     self.adts[name] = a
             for bj in j["bodies"]:
                 b = Body(c, bj)
-                self.bodies[b.path] = b
+                self.multi.setdefault(b.path, []).append(b)
+                if b.path not in self.bodies:
+                    self.bodies[b.path] = b
         self.missing = missing
 
     def body(self, path):
